@@ -868,6 +868,10 @@ class Emitter:
                 if e[3] is not None:
                     walk_expr(e[3], local)
             elif k == "iflet":
+                if e[2][0] == "mcall" and e[2][2] == "get_mut":
+                    mv = strip_guard(e[2][1])
+                    if mv[0] == "path" and len(mv[1]) == 1 and mv[1][0] not in local:
+                        add(mv[1][0])
                 walk_expr(e[2], local); walk_block(e[3], local | set(self.pat_vars(e[1])))
                 if e[4] is not None:
                     walk_expr(e[4], local)
@@ -884,10 +888,10 @@ class Emitter:
             elif k == "call":
                 if e[1][0] == "path" and self.p.fn_mut(e[1][1][-1]) is not None:
                     for i in self.p.fn_mut(e[1][1][-1]):
-                        a = e[2][i]
-                        while a[0] in ("paren", "ref", "deref"):
-                            a = a[1]
-                        if a[0] == "path" and len(a[1]) == 1 and a[1][0] not in local:
+                        a = strip_guard(e[2][i])
+                        if is_self_field(a):
+                            add("self")
+                        elif a[0] == "path" and len(a[1]) == 1 and a[1][0] not in local:
                             add(a[1][0])
                 walk_expr(e[1], local)
                 for a in e[2]:
@@ -1112,6 +1116,18 @@ class Emitter:
                 return self.hoist(e, env)[0]
             if e[0] == "mcall" and self.p.self_call_mut(e) is not None:
                 return self.hoist(e, env)[0]
+            if e[0] == "iflet" and e[4] is None and e[2][0] == "mcall" and e[2][2] == "get_mut" and len(e[2][4]) == 1 \
+                    and e[1][0] == "pts" and e[1][1] == ["Some"] and e[1][2][0][0] == "pid":
+                # `if let Some(x) = map.get_mut(k) { …mutate x… }`: x is a reference INTO the map — write it back
+                mv = strip_guard(e[2][1])
+                if not (mv[0] == "path" and len(mv[1]) == 1):
+                    self.fail("`get_mut` on anything but a map variable", e)
+                m = ident(mv[1][0])
+                x = e[1][2][0][1]
+                kx = self.expr(e[2][4][0], env)
+                self.p.kinds[x] = "entry"
+                inner = self.block_value(e[3], env + [x], [x])
+                return [self.let(m, f"(match (lookup {kx} {m}) with | (some {ident(x)}) => (RustLite.mapSet {m} {kx} ({inner})) | none => {m})")]
             if e[0] in ("if", "iflet", "match"):
                 # a mutation inside the condition / scrutinee happens first
                 pre = []
@@ -1260,18 +1276,28 @@ class Emitter:
         if cur[0] == "call" and cur[1][0] == "path" and self.p.fn_mut(cur[1][1][-1]) is not None:
             # call of another translated function with `&mut` parameters: its result carries their new values
             muts = self.p.fn_mut(cur[1][1][-1])          # indices of the &mut parameters
-            args = [self.expr(a, env) for a in cur[2]]
+            args = [("" if (i in muts and is_self_field(strip_guard(a))) else self.expr(a, env)) for i, a in enumerate(cur[2])]
             t = self.fresh()
             names = []
+            post = []
             for i in muts:
-                a = cur[2][i]
-                while a[0] in ("paren", "ref", "deref"):
-                    a = a[1]
+                a = strip_guard(cur[2][i])
+                if is_self_field(a):
+                    # `f(&mut self.order.lock(), …)`: the new value goes back into the field
+                    tmp = self.fresh("cell")
+                    names.append(tmp)
+                    post.append(self.let("self", "{ self with " + ident(a[2]) + " := " + tmp + " }"))
+                    args[i] = "self." + ident(a[2])
+                    continue
                 if a[0] != "path" or len(a[1]) != 1:
                     self.fail("argument passed by `&mut` must be a variable", cur)
                 names.append(ident(a[1][0]))
-            lines = [self.let("(" + ", ".join([t] + names) + ")", self.p.fn_call(cur[1][1][-1], args))]
-            val = ("path", [t], None)
+            if self.p.fn_returns(cur[1][1][-1]):
+                lines = [self.let("(" + ", ".join([t] + names) + ")", self.p.fn_call(cur[1][1][-1], args))] + post
+                val = ("path", [t], None)
+            else:
+                lines = [self.let(self.tup(names), self.p.fn_call(cur[1][1][-1], args))] + post
+                val = ("tuple", [])
             for c in reversed(chain):
                 val = ("mcall", val, c[2], c[3], c[4])
             return (lines, val)
@@ -1579,6 +1605,10 @@ class PureProfile(BaseProfile):
             if kind == "map":
                 return ("RustLite.mapRemove", True)
             raise Untranslatable(f"`remove` on a receiver of unknown kind: {recv}")
+        if name in ("record_hit", "record_miss") and (recv is None or kind == "stats"):
+            return ("Stats." + name, False)
+        if name == "increment_frequency" and (kind == "entry" or (recv is None and "increment_frequency" not in self.fns)):
+            return ("Entry.increment_frequency", False)
         if name == "push_back":
             return ("RustLite.pushBack", False)
         if name == "retain":
@@ -1778,6 +1808,9 @@ class PureProfile(BaseProfile):
             return f"(A.max {R()} {A_(0)})"
         if name in ("duration_since", "unwrap") :
             return R()
+        if name == "is_expired" and len(args) == 1:
+            self.uses_clock = True
+            return f"(Entry.is_expired clock {R()} {A_(0)})"
         if name == "saturating_sub" and len(args) == 1:
             return f"(RustLite.ssub {R()} {A_(0)})"
         if name == "powf" and len(args) == 1:
@@ -1817,15 +1850,13 @@ def regenerate():
     write_if_changed(os.path.join(GEN_DIR, "PureMem.lean"), hdr + "namespace Mem\n\n" + text + "\nend Mem\nend Cachelito.Generated\n")
     for (mod, rel, _, _, _) in UTIL_FILES:
         try:
-            text, uinfo = translate_utils(mod)
+            text, uinfo, probs = translate_utils_resilient(mod)
             info[mod.lower()] = uinfo
-        except Untranslatable as e:
-            problems.append(str(e))
+            problems += probs
+        except Exception as e:      # nothing of this file could be read: no translation, the obligations are broken
+            problems.append(f"{rel}: " + (str(e) if isinstance(e, Untranslatable) else f"translator error {e!r}"))
             text = "-- translation failed: " + str(e).replace("\n", " ") + "\n"
-        except Exception as e:      # the parser met something it does not know: no translation, the obligation is broken
-            problems.append(f"{rel}: translator error {e!r}")
-            text = "-- translation failed: " + repr(e).replace("\n", " ") + "\n"
-        h2 = hdr.replace("import Cachelito.RustLite\n", "import Cachelito.RustLite\nimport Cachelito.Generated.PureUtils\n") if mod == "Global" else hdr
+        h2 = hdr.replace("import Cachelito.RustLite\n", "import Cachelito.RustLite\nimport Cachelito.Generated.PureUtils\nimport Cachelito.Generated.PureEntry\nimport Cachelito.Generated.PureStats\n") if mod == "Global" else hdr
         write_if_changed(os.path.join(GEN_DIR, f"Pure{mod}.lean"), h2 + f"namespace {mod}\nvariable {{K V F : Type}} [DecidableEq K]\n\n" + text + f"\nend {mod}\nend Cachelito.Generated\n")
     info["problems"] = problems
     return info
@@ -1864,6 +1895,8 @@ def lean_type(rust, pname):
         return "F", "f64"
     if base == "R":
         return "V", "val"
+    if base == "Option<R>":
+        return "Option V", "optval"
     if base == "Self":
         return None, "self"
     raise Untranslatable(f"parameter / return type `{rust}`")
@@ -1879,8 +1912,8 @@ UTIL_FILES = [
      ["record_hit", "record_miss", "hits", "misses", "total_accesses", "hit_rate", "miss_rate", "reset"]),
     ("Policy", "cachelito-core/src/eviction_policy.rs", None, {}, ["is_valid", "from"]),
     ("Global", "cachelito-core/src/global_cache.rs", "RustLite.GlobalCache K V F",
-     {"self.map": "map", "self.order": "deque", "self.frequency_weight": "optf64"},
-     ["handle_entry_limit_eviction", "insert"]),
+     {"self.map": "map", "self.order": "deque", "self.frequency_weight": "optf64", "self.stats": "stats"},
+     ["handle_entry_limit_eviction", "insert", "increment_frequency", "get"]),
     ("Async", "cachelito-core/src/async_global_cache.rs", "RustLite.AsyncCache K V F",
      {"self.cache": "map", "self.order": "deque", "self.frequency_weight": "optf64"},
      ["find_min_frequency_key", "find_arc_eviction_key", "find_tlru_eviction_key", "is_already_key_inserted",
@@ -1902,6 +1935,20 @@ def emit_fn_body(em, f, env, muts):
             res = em.tup(muts) if muts else "()"
         return wb, res
 
+    def go_block(stmts, env):
+        """statements of an early-return block; guards taken there are aliases until the return"""
+        lines = []
+        for st in stmts:
+            if em.lock_alias(st) is not None:
+                v, fl = em.lock_alias(st)
+                aliases.append((v, fl))
+                em.p.kinds[v] = em.p.kinds.get("self." + fl)
+                env.append(v)
+                lines.append(em.let(ident(v), "self." + ident(fl)))
+                continue
+            lines += em.stmt(st, env)
+        return lines
+
     def go(stmts, tail, env):
         lines = []
         for idx, st in enumerate(stmts):
@@ -1913,15 +1960,19 @@ def emit_fn_body(em, f, env, muts):
                 env.append(v)
                 lines.append(em.let(ident(v), "self." + ident(fl)))
                 continue
-            # early return
-            if st[0] == "expr" and st[1][0] == "if" and st[1][3] is None and len(st[1][2][1]) == 1 and \
-                    st[1][2][1][0][0] == "return" and st[1][2][2] is None:
+            # early return: `if c { stmts…; return [v]; }`
+            if st[0] == "expr" and st[1][0] == "if" and st[1][3] is None and st[1][2][1] and \
+                    st[1][2][1][-1][0] == "return" and st[1][2][2] is None:
                 h = em.hoist(st[1][1], env)
                 lines += h[0]
                 cond = em.expr(h[1], env)
-                rv = st[1][2][1][0][1]
+                blk = st[1][2]
+                rv = blk[1][-1][1]
+                n_al = len(aliases)
+                inner = go_block(blk[1][:-1], list(env))
                 wb, res = result(em.expr(rv, env) if rv is not None else None)
-                early = "; ".join(wb + [res])
+                del aliases[n_al:]
+                early = "; ".join(inner + wb + [res])
                 rest = go(stmts[idx + 1:], tail, list(env))
                 lines.append(f"if {cond} then ({early}) else (\n  {rest})")
                 return "\n  ".join(lines)
@@ -1936,12 +1987,45 @@ def emit_fn_body(em, f, env, muts):
 EXTERNAL = {}      # functions of modules translated earlier: name -> table entry (with qualified lean_name)
 
 
-def translate_utils(module):
+def translate_utils_resilient(module):
+    """translate as many of the module's functions as possible: a function outside the subset is dropped (and reported),
+    the others are still emitted, so that only the theorems about the dropped function (and its callers) break"""
+    wanted = [w for (mod, _, _, _, ws) in UTIL_FILES if mod == module for w in ws]
+    skip, problems = [], []
+    while True:
+        try:
+            text, info = translate_utils(module, skip)
+            info["not_translated"] = list(skip)
+            return text, info, problems
+        except Exception as e:
+            msg = str(e) if isinstance(e, Untranslatable) else f"translator error {e!r}"
+            # find a culprit: the last function whose removal lets the rest go through
+            culprit = None
+            for w in reversed([w for w in wanted if w not in skip]):
+                try:
+                    translate_utils(module, skip + [w])
+                    culprit = w
+                    break
+                except Exception:
+                    continue
+            if culprit is None:
+                remaining = [w for w in wanted if w not in skip]
+                if not remaining:
+                    raise
+                culprit = remaining[-1]
+            problems.append(f"{module}.{culprit}: {msg}")
+            skip.append(culprit)
+            if len(skip) >= len(wanted):
+                return "-- nothing could be translated\n", {"functions": [], "not_translated": list(skip)}, problems
+
+
+def translate_utils(module, skip=()):
     out = []
     info = {"functions": []}
     for (mod, rel, self_ty, self_kinds, wanted) in UTIL_FILES:
         if mod != module:
             continue
+        wanted = [w for w in wanted if w not in skip]
         path = os.path.join(REPO, rel)
         fns = parse_source(path)
         byname = {}
@@ -2025,8 +2109,8 @@ def translate_utils(module):
                 table[name]["lean_name"] = lname
             out.append(f"/-- `{rel}:{f['line']}`  fn {name} -/\ndef {lname} {' '.join(imp + sig)} :=\n{body}\n")
             info["functions"].append({"name": name, "file": rel, "line": f["line"], "mutates": muts, "implicit": table[name]["implicit"]})
-            if module == "Utils":
-                EXTERNAL[name] = dict(table[name], lean_name="Utils." + name)
+            if module in ("Utils", "Entry", "Stats"):
+                EXTERNAL[name if module == "Utils" else module + "." + name] = dict(table[name], lean_name=module + "." + name)
     return "\n".join(out), info
 
 
